@@ -266,3 +266,87 @@ Proof.
     rewrite !Z.eqb_refl. cbn [andb]. apply Z.leb_le. lia.
   - subst s'. rewrite !Z.sub_0_r, !Z.add_0_r, !Z.eqb_refl. cbn [andb]. apply Z.leb_le. lia.
 Qed.
+
+(** ** Additions (audit): state-equal no-op on an empty pool, exactness of every block inside a history,
+    closed form of the schedule. *)
+
+(** The pool holds none of the reward denominations: BeginBlocker returns the state itself. *)
+Lemma begin_block_empty_noop p s :
+  validate_rewards (rewards p) = true -> pool_ok s ->
+  (forall d, In d (map fst (rewards p)) -> get (pool s) d = 0) ->
+  begin_block p s = Ok s.
+Proof.
+  intros Hv Hp H0. destruct (enable p) eqn:He; [|apply begin_block_disabled; exact He].
+  apply validate_rewards_parts in Hv as (_ & Hfa & Hnd).
+  destruct (choose_all_valid (pool s) (rewards p) Hp Hfa Hnd) as (ch & Hch & Htot & Hsub).
+  unfold begin_block. rewrite He, Hch. cbn [negb].
+  replace (forallb (fun d => vtotal ch d =? 0) (distinct (map fst ch))) with true; [reflexivity|].
+  symmetry. apply forallb_forall. intros d Hin. rewrite distinct_In in Hin. apply Hsub in Hin.
+  apply Z.eqb_eq. rewrite Htot, (H0 d Hin). pose proof (reward_of_nonneg (rewards p) d Hfa). lia.
+Qed.
+
+Lemma run_app bs1 : forall bs2 p s,
+  run (bs1 ++ bs2) p s = match run bs1 p s with Ok (p1, s1) => run bs2 p1 s1 | Err => Err | Panic => Panic end.
+Proof.
+  induction bs1 as [|b bs1 IH]; intros bs2 p s; cbn [app run]; [reflexivity|].
+  destruct (begin_block (apply_change p b) s); try reflexivity. apply IH.
+Qed.
+
+(** The relation one block must satisfy (the statement of the property for one block). *)
+Definition block_exact (p : params) (s s' : state) : Prop :=
+  if enable p then step_spec p s s' else s' = s.
+
+(** EVERY block of EVERY history is exact for the parameters in force at that block. *)
+Lemma run_every_block_exact bs1 b bs2 p s :
+  params_ok p -> pool_ok s ->
+  exists p1 s1 s2, run bs1 p s = Ok (p1, s1) /\ params_ok p1 /\ pool_ok s1 /\
+    begin_block (apply_change p1 b) s1 = Ok s2 /\ block_exact (apply_change p1 b) s1 s2 /\
+    run (bs1 ++ b :: bs2) p s = run bs2 (apply_change p1 b) s2.
+Proof.
+  intros Hpar Hpool. destruct (run_invariant bs1 p s Hpar Hpool) as (p1 & s1 & Hrun & Hpar1 & Hp1 & _).
+  pose proof (apply_change_ok p1 b Hpar1) as Hpar'.
+  assert (Hs : exists s2, begin_block (apply_change p1 b) s1 = Ok s2 /\ block_exact (apply_change p1 b) s1 s2).
+  { unfold block_exact. destruct (enable (apply_change p1 b)) eqn:He.
+    - destruct (begin_block_enabled _ s1 He Hpar' Hp1) as (s2 & Hb & Hspec). exists s2. split; assumption.
+    - exists s1. split; [apply begin_block_disabled; exact He|reflexivity]. }
+  destruct Hs as (s2 & Hb & Hex). exists p1, s1, s2. repeat split; try assumption.
+  rewrite run_app, Hrun. cbn [run]. rewrite Hb. reflexivity.
+Qed.
+
+Definition noop_block : block := {| set_enable := None; set_rewards := None |}.
+
+(** Closed form: n blocks under constant enabled parameters leave max(0, pool - n*reward) in the pool, the
+    difference sits in the fee collector. *)
+Lemma run_closed_form n : forall p s,
+  enable p = true -> params_ok p -> pool_ok s ->
+  exists s', run (repeat noop_block n) p s = Ok (p, s') /\
+    (forall d, get (pool s') d = Z.max 0 (get (pool s) d - Z.of_nat n * reward_of (rewards p) d)) /\
+    (forall d, get (fee s') d = get (fee s) d + (get (pool s) d - get (pool s') d)) /\
+    others s' = others s /\ supply s' = supply s.
+Proof.
+  induction n as [|n IH]; intros p s He Hpar Hpool; cbn [repeat run].
+  - exists s. split; [reflexivity|]. repeat split; try reflexivity; intro d; specialize (Hpool d); lia.
+  - change (apply_change p noop_block) with p.
+    destruct (begin_block_enabled p s He Hpar Hpool) as (s1 & -> & Hspec).
+    pose proof (step_spec_pool_ok p s s1 Hpool Hspec) as Hp1. destruct Hspec as (H1 & H2 & H3 & H4).
+    destruct (IH p s1 He Hpar Hp1) as (s' & Hrun & Q1 & Q2 & Q3 & Q4).
+    exists s'. split; [exact Hrun|]. apply validate_rewards_parts in Hpar as (_ & Hfa & _).
+    split; [|split; [|split; congruence]].
+    + intro d. rewrite Q1, H1. pose proof (reward_of_nonneg (rewards p) d Hfa) as Hr. specialize (Hpool d).
+      rewrite Nat2Z.inj_succ, Z.mul_succ_l.
+      assert (0 <= Z.of_nat n * reward_of (rewards p) d) by (apply Z.mul_nonneg_nonneg; lia). lia.
+    + intro d. rewrite Q2, H2, H1. lia.
+Qed.
+
+(** A positive reward drains the pool of that denomination in finitely many blocks. *)
+Lemma pool_drains p s d :
+  enable p = true -> params_ok p -> pool_ok s -> 0 < reward_of (rewards p) d ->
+  exists n s', run (repeat noop_block n) p s = Ok (p, s') /\ get (pool s') d = 0 /\
+               get (fee s') d = get (fee s) d + get (pool s) d.
+Proof.
+  intros He Hpar Hpool Hr. exists (Z.to_nat (get (pool s) d)).
+  destruct (run_closed_form (Z.to_nat (get (pool s) d)) p s He Hpar Hpool) as (s' & Hrun & H1 & H2 & _).
+  exists s'. split; [exact Hrun|]. specialize (Hpool d).
+  assert (E : get (pool s') d = 0). { rewrite H1, Z2Nat.id by exact Hpool. nia. }
+  split; [exact E|]. rewrite H2, E. lia.
+Qed.
